@@ -149,6 +149,14 @@ def step (st : State) (toks : List String) : State × String :=
     match j.toNat?, i.toNat? with
     | some j, some i => repairAll st j i ((rest.head?.getD "1") == "1")
     | _, _ => (st, "bad-op")
+  | ["repairm", j] =>
+    -- one round of the poller's production loop (`repair_members`): every other node in id order; a failed exchange is logged
+    -- and skipped, the others go on
+    match j.toNat? with
+    | some j =>
+      let peers := (List.range st.nnodes).filter (· ≠ j)
+      (peers.foldl (fun acc i => (repairAll acc j i true).1) st, "ok")
+    | none => (st, "bad-op")
   | ["repairc", j, i] =>
     -- the concurrent production path: both halves run; under the model's atomic handlers the result
     -- equals one of the two sequential orders; removals are dispatched first
